@@ -289,7 +289,7 @@ Section Invariant.
         pose proof (wf_edge g p e Hwf He) as Hinc.
         assert (Hacc_ok : table_ok acc) by (apply fold_sched_table_ok; apply (wf_init g p Hwf)).
         destruct (tf_merge_brings v acc (R (snd e)) (fst e) _ tc Hacc' Hacc_ok (R_table_ok (snd e)) Hl Hx) as [t1 [Hl1 Hx1]].
-        destruct (rel_extend v p (fst e) (vars_merge (f_vars acc) (f_vars (R (snd e)))) (o_path o') (o_name o') (o_task o') tc
+        destruct (rel_extend v p (fst e) (vars_merge_inc (fst e) (f_vars acc) (f_vars (R (snd e)))) (o_path o') (o_name o') (o_task o') tc
                              Hdc Hinc Hp' Hn' Ha' HRel) as [Hkey HRel1].
         rewrite Hkey in Hl1.
         assert (Herr2 : f_err (fold_sched v R l2 acc') = None) by (rewrite <- HRp; exact Herr).
